@@ -10,6 +10,24 @@ CLAIMS = {
  "C08": ("Member sequencing of gzip.Reader decided structurally: one source object shared by header parser, inflater and trailer reader; next header only after a verified trailer and only in multistream mode; single-member mode returns io.EOF without touching the source; digest/size restart. Exact stream-end positioning (the runtime part) is not decided here.",
          "same trusted base as C07; depends on C05 for exact consumption.",
          "SSA access-path identity of the source field, dominating branch facts, barrier reachability", "DESIGN.md 4/C08"),
+ "C01": ("Round-trip equality is NOT decided (a relation between runtime byte strings). Six encoder-side necessary conditions are decided for all inputs and both arms: table/constant agreement with the decoder and RFC 1951, code-length limits 15/7, every emitted token counted in the histogram on every path, block framing (alignment, end-of-block, final flag, empty-final-block shortcut only when nothing was accumulated), delegation discipline, and literal-from-current-offset consistency in the Go finder.",
+         "RFC 1951 constants embedded in the checker are the oracle for tables; assembly finders are covered only through C18/C19 clauses.",
+         "constant/table agreement from go/types, barrier reachability with loop targets, phi-pair consistency, dominating facts", "DESIGN.md 4/C01"),
+ "C02": ("Decode equality is NOT decided. Decided: the precomputed fixed-Huffman lookup tables are validated exhaustively (4096 short + reachable long + 1024 distance entries) against RFC 1951 in the entry format the decode loops define; RFC base/extra tables; slack-constant relations the fast paths rely on; assembly layout agreement; boundary-test-before-store in the dynamic header parser.",
+         "the entry format is the one read off decode.go / huffcode.go; RFC 1951 fixed code embedded in the checker.",
+         "exhaustive enumeration of a finite constant table against an embedded reference decoder; constant relations; per-iteration barrier reachability", "DESIGN.md 4/C02"),
+ "C04": ("Schedule independence is NOT decided. Decided: the rollback discipline that makes decoding restartable - end-of-input exits of the Go decode loop hand back a consistent unconsumed (bits,bitsLen,input) triple and an output position from before the symbol; bit-consuming header steps are followed by an end-of-input test before success; rollbacks clear the overflow carry; readHeader's staging edge restores state and accounts for the staged bytes; input is acquired non-destructively.",
+         "phi roles in the exit block are identified by variable name (SSA comments) with a type-based fallback; infeasible-path reasoning is avoided by restricting R04.3 to rollback edges.",
+         "SSA phi-edge analysis at the loop exit, backward slices bounded by the loop header, barrier reachability, exact shape check of the staging edge", "DESIGN.md 4/C04"),
+ "C06": ("Payload equality is NOT decided. Decided: RFC 1950/1952 constants on both sides, flag bits and the conditions under which flag and field body are written agree, field order writer vs reader, byte orders and trailer layout, checksum/size computed over exactly the slice handed to the compressor on every success path, level range.",
+         "RFC constants embedded in the checker.",
+         "constant evaluation via go/types, dominating-fact comparison between sibling sites, dominance order, SSA operand identity", "DESIGN.md 4/C06"),
+ "C18": ("Go/assembly semantic equivalence is NOT decided. Decided: layout agreement of all 480 typed memory operands of the 17 assembly routines with the Go structs (field, element boundary, width, scale, confirmed field sets and element indexes, write summaries), frame agreement, total and constant errno mapping, dispatch totality, sibling declarations in both configurations, state write-back on every RET path, CPUID masks vs psABI levels and feature gating of every routine, validation of every lookup-table load before bits are consumed.",
+         "the checker's own Plan 9 assembly front end (parser + register dataflow); an unknown mnemonic or operand form fails the check; types.Sizes for amd64.",
+         "assembly operand resolution against types.Sizes, constant propagation to result slots, CFG path checks in assembly, instruction-to-feature-level table vs Go guard lower bounds", "DESIGN.md 4/C18"),
+ "C19": ("Decided: the window size chosen by each constructor reaches every match finder unchanged (constants 4096/32768, TrailingZeros level, 1<<level history size), the Go finder emits a match only under a comparison that normalises to 1 <= dist <= historySize on the encoded distance, and the assembly variant selected per window level masks distances with window-1 (mask read from instructions). 16-bit position wrap and assembly candidate arithmetic are not decided.",
+         "getDistSymbol maps the tested distance to the emitted symbol (arithmetic not checked).",
+         "constant call arguments, comparison normal forms over dominating facts, assembly immediate extraction", "DESIGN.md 4/C19"),
  "C03": ("Four structural necessary conditions of rejecting malformed input, decided for all inputs at once: lookup-table builders clear what they do not assign (short table, copy prefix, long-table groups), internal outcomes are exhaustively classified, the assembly loop's errno mapping is total and precedes any fallback, and step's error vocabulary is closed. Termination, panic freedom and the accept/reject arithmetic are not decided.",
          "go/ssa dominators and CFG represent the source; assembly clauses come from the checker's own Plan 9 assembly front end.",
          "sibling-deviance rule over table builders (barrier reachability with loop-aware zero stores), call-graph closure of returned sentinels, edge-pruned path search on errno, value-source closure", "DESIGN.md 4/C03"),
